@@ -54,11 +54,13 @@ INVS = "InvRejectIsPure InvNoCodeBeforeAccept InvOnlyReject InvValidAccepted Inv
 MCFG = """SPECIFICATION MSpec
 CONSTANTS MaxSize = {maxsize} RichM = {richm} ShardM = {shardm} NShardsM = {nshardsm}
           N = {n} RichP = {richp} ShardP = {shardp} NShardsP = {nshardsp} StorageCheck = "{storage_check}"
-          KwargCheck = "{kwarg_check}"
+          KwargCheck = "{kwarg_check}" Families = {{{families}}}
 INVARIANT {invs}
 """
+FAMILIES_N2 = ("basic", "storage_dict", "post_map", "post_call", "call_kw", "illformed_call")   # everything
+FAMILIES_N3 = ("post_call", "illformed_call")    # three functions: the faults met through the call side, every output
 TRACE_CONSTANTS = ('MaxSize = 1 RichM = FALSE ShardM = 1 NShardsM = 1 N = 2 RichP = FALSE ShardP = 1 NShardsP = 1 '
-                   'StorageCheck = "early" KwargCheck = "early"')   # empty universes; the REQUIRED positions of the checks
+                   'StorageCheck = "early" KwargCheck = "early" Families = {}')   # empty universes; the REQUIRED positions of the checks
 NPROC = min(8, os.cpu_count() or 4)
 
 
@@ -128,6 +130,10 @@ def run_request(req: dict, run_folder: str | None, kinds: dict | None = None, ho
             inp = pmap.inputs_to_py(inputs, kinds)
             if stage == "call":
                 pl(req["out"], **inp)
+            elif stage == "run":
+                pl.run(req["out"], kwargs=inp, full_output=True)
+            elif stage == "func":
+                pl.func(req["out"])(**inp)
             else:
                 pool = None
                 if cfg["executor"]:
@@ -250,25 +256,26 @@ def report(ctx: Ctx, kind: str, exp: dict, obs: dict, bad: list[str]) -> None:
 
 
 # ---- TLC ------------------------------------------------------------------------------------------------------------
-def mcfg(shardm: int, nshardsm: int, shardp: int, nshardsp: int, *, n: int = 2, maxsize: int = 2, rich: bool = False,
-         storage_check: str = "early", kwarg_check: str = "early", invs: str | None = None) -> str:
+def mcfg(shardm: int, nshardsm: int, shardp: int, nshardsp: int, n: int = 2, families: tuple = FAMILIES_N2, *,
+         maxsize: int = 2, rich: bool = False, storage_check: str = "early", kwarg_check: str = "early",
+         invs: str | None = None) -> str:
     return MCFG.format(maxsize=maxsize, richm="TRUE" if rich else "FALSE", shardm=shardm, nshardsm=nshardsm, n=n,
                        richp="TRUE" if rich else "FALSE", shardp=shardp, nshardsp=nshardsp, storage_check=storage_check,
-                       kwarg_check=kwarg_check,
+                       kwarg_check=kwarg_check, families=", ".join(f'"{f}"' for f in families),
                        invs=invs if invs is not None else f"{LAWS} {INVS} Emit")
 
 
-def export_mutants(ctx: Ctx, shards: list[tuple[int, int, int, int]], workers: int, **kw) -> tuple[list[dict], dict]:
-    """shards: (ShardM, NShardsM, ShardP, NShardsP) per TLC process."""
+def export_mutants(ctx: Ctx, shards: list[tuple], workers: int, **kw) -> tuple[list[dict], dict]:
+    """shards: (ShardM, NShardsM, ShardP, NShardsP[, N, Families]) per TLC process."""
     def one(k: int):
-        sm, nm, sp, np_ = shards[k]
-        return run_tlc("MC_Validity", mcfg(sm, nm, sp, np_, **kw), ctx.workdir(f"m_{k}"), workers=workers,
+        return run_tlc("MC_Validity", mcfg(*shards[k], **kw), ctx.workdir(f"m_{k}"), workers=workers,
                        allow_violation=False, timeout=3000, heap="4g")
     cases: list[dict] = []
     stayed: dict[str, int] = {}
     with ThreadPoolExecutor(max_workers=max(1, 8 // workers)) as ex:
         for k, r in enumerate(ex.map(one, range(len(shards)))):
-            ctx.add_tlc(r, f"MC_Validity MSpec early, shards M {shards[k][0]}/{shards[k][1]} P {shards[k][2]}/{shards[k][3]}")
+            ctx.add_tlc(r, f"MC_Validity MSpec early, shards M {shards[k][0]}/{shards[k][1]} P {shards[k][2]}/{shards[k][3]}"
+                           + (f" N={shards[k][4]} families={list(shards[k][5])}" if len(shards[k]) > 4 else ""))
             for t, p in parse_prints(r.prints):
                 if t == "CASE":
                     cases.append(p)
